@@ -116,6 +116,15 @@ def gen_case(ctx, k):
             reacs.append({"eq": eq, "k+": stoch_gen.env_value(rng, net["environments"], [Fraction(1, 4), Fraction(1, 2), 1]),
                           "k-": stoch_gen.env_value(rng, net["environments"], [Fraction(1, 4), Fraction(1, 8), 0])})
         net["reactions"] = reacs
+    if kind == "grid" and k % 6 in (0, 2):
+        # a genuinely three-dimensional grid with at least one reflecting axis of length >= 2, diffusing species
+        w, h, d = rng.choice([(1, 1, 3), (2, 1, 2), (1, 2, 2), (1, 1, 2), (2, 1, 3), (1, 2, 3)])
+        bc = {"x": rng.choice(["reflecting", "periodical"]), "y": rng.choice(["reflecting", "periodical"]), "z": "reflecting"}
+        space = dict(space)
+        space.update({"w": w, "h": h, "d": d, "cell_env": [rng.randrange(nenv) for _ in range(w * h * d)], "boundary_conditions": bc})
+        info = dict(info, n=w * h * d)
+        for sp_ in net["species"]:
+            sp_["D"] = float(rng.choice([0.25, 0.5, 1, 2]))
     n = info["n"]
     ns = len(net["species"])
     if ns >= 3 and rng.random() < 0.3:
@@ -138,7 +147,113 @@ def gen_case(ctx, k):
 
 
 def small(case):
-    return {k: case[k] for k in ("net", "space", "kind", "option", "seed", "dt", "tmax", "state", "max_iter", "edge", "before") if k in case}
+    return {k: case[k] for k in ("net", "space", "kind", "option", "seed", "dt", "tmax", "state", "max_iter", "edge", "before", "mode", "units", "same_object") if k in case}
+
+
+def parse_side(txt, labels):
+    v = [0] * len(labels)
+    for term in txt.split("+"):
+        term = term.strip()
+        if not term:
+            continue
+        parts = term.split()
+        coef, lab = (int(parts[0]), parts[1]) if len(parts) == 2 else (1, parts[0])
+        v[labels.index(lab)] += coef
+    return v
+
+
+def true_sto(net):
+    """net stoichiometric matrix (species-major, forward and reverse direction of every reaction) read from the
+    equation texts of the generated network — independent of the repository's parser and matrices"""
+    labels = [s["label"] for s in net["species"]]
+    cols = []
+    for r in net["reactions"]:
+        l, rr = r["eq"].split("->")
+        a, b = parse_side(l, labels), parse_side(rr, labels)
+        cols.append([y - x for x, y in zip(a, b)])
+        cols.append([x - y for x, y in zip(a, b)])
+    nr = len(cols)
+    return [cols[r][s] for s in range(len(labels)) for r in range(nr)], nr
+
+
+def conservation_vectors(arr, net=None):
+    """integer vectors c with c . sto[:, r] = 0 for every r and c_s = 0 for every species chemostated anywhere"""
+    ns, nr = arr["ns"], arr["nr"]
+    n = len(arr["chem"]) // ns if ns else 0
+    free = [s for s in range(ns) if not any(arr["chem"][s * n + i] for i in range(n))]
+    if not free:
+        return [], free
+    sto = arr["sto"]
+    if net is not None:
+        sto, nr = true_sto(net)
+    sub = [sto[s * nr + r] for s in free for r in range(nr)]
+    basis = stoch_gen.left_null_space(sub, len(free), nr)
+    out = []
+    for b in basis:
+        c = [0] * ns
+        for v, s in zip(b, free):
+            c[s] = v
+        out.append(c)
+    # sums of basis vectors are conservation laws too: add one combination to exercise non-basis vectors
+    if len(out) >= 2:
+        out.append([a + 2 * b for a, b in zip(out[0], out[1])])
+    return out, free
+
+
+def gen_case(ctx, k):
+    rng = ctx.rng
+    nenv = rng.choice([1, 2, 2, 3])
+    kind = "grid" if k % 2 == 0 else "graph"
+    space, info = stoch_gen.rand_space(rng, kind=kind, nenv=nenv, max_cells=6)
+    # conservative networks are the interesting ones: prefer isomerisations / bindings, low chemostat rate
+    net = stoch_gen.rand_network(rng, nenv=nenv, max_order=3, chem_p=0.1,
+                                 nr=rng.choice([0, 1, 1, 2, 2, 3]))
+    if rng.random() < 0.7:
+        # replace the reactions by mass-conserving ones (A -> B, A + B -> C, 2 A -> B ...) so that non-trivial laws exist
+        labs = [s["label"] for s in net["species"]]
+        reacs = []
+        for _ in range(rng.randint(1, 2)):
+            a, b = rng.choice(labs), rng.choice(labs)
+            c = rng.choice(labs)
+            eq = rng.choice(["%s -> %s" % (a, b), "%s + %s -> %s" % (a, b, c), "2 %s -> %s" % (a, b), "%s -> 2 %s" % (a, c)])
+            l, r = eq.split(" -> ")
+            if sorted(l.split(" + ")) == sorted(r.split(" + ")):
+                continue
+            reacs.append({"eq": eq, "k+": stoch_gen.env_value(rng, net["environments"], [Fraction(1, 4), Fraction(1, 2), 1]),
+                          "k-": stoch_gen.env_value(rng, net["environments"], [Fraction(1, 4), Fraction(1, 8), 0])})
+        net["reactions"] = reacs
+    if kind == "grid" and k % 6 in (0, 2):
+        # a genuinely three-dimensional grid with at least one reflecting axis of length >= 2, diffusing species
+        w, h, d = rng.choice([(1, 1, 3), (2, 1, 2), (1, 2, 2), (1, 1, 2), (2, 1, 3), (1, 2, 3)])
+        bc = {"x": rng.choice(["reflecting", "periodical"]), "y": rng.choice(["reflecting", "periodical"]), "z": "reflecting"}
+        space = dict(space)
+        space.update({"w": w, "h": h, "d": d, "cell_env": [rng.randrange(nenv) for _ in range(w * h * d)], "boundary_conditions": bc})
+        info = dict(info, n=w * h * d)
+        for sp_ in net["species"]:
+            sp_["D"] = float(rng.choice([0.25, 0.5, 1, 2]))
+    n = info["n"]
+    ns = len(net["species"])
+    if ns >= 3 and rng.random() < 0.3:
+        # a chemostated species declared BEFORE the reacting ones
+        for s in net["species"]:
+            s.pop("chstt", None)
+        q = rng.choice([0, 1, 1])
+        net["species"][q]["chstt"] = True
+        labs = [s["label"] for s in net["species"]]
+        o1, o2 = [x for x in range(3) if x != q]
+        net["reactions"] = [{"eq": "%s -> %s" % (labs[o1], labs[o2]), "k+": 1.0, "k-": 0.25},
+                            {"eq": "%s + %s -> %s" % (labs[q], labs[o1], labs[o2]), "k+": 0.5, "k-": 0}][:rng.randint(1, 2)]
+    state = [float(rng.choice([0, 1, 2, 3, 5, 8])) for _ in range(ns * n)]
+    tau_dt = 1 / 2048
+    if any(s.get("chstt") is True for s in net["species"][:2]) and ns >= 3 and len(net["reactions"]) <= 2 and \
+            all(r["eq"].count("+") <= 1 and "2 " not in r["eq"] and "3 " not in r["eq"] for r in net["reactions"]):
+        tau_dt = 1 / 32        # low-order network: a larger leap so that reactions actually fire in every cell
+    return {"tau_dt": tau_dt, "net": net, "space": space, "kind": kind, "seed": rng.randint(0, 2 ** 31 - 1), "state": state, "tmax": 1e9,
+            "edge": info["edge"] if kind == "grid" else list(info["edge"])}
+
+
+def small(case):
+    return {k: case[k] for k in ("net", "space", "kind", "option", "seed", "dt", "tmax", "state", "max_iter", "edge", "before", "mode", "units", "same_object") if k in case}
 
 
 def child_run_seq(case, lib):
@@ -182,7 +297,8 @@ def check_totals(report, case, res, vectors, n, ns):
         tots = [totals(c, x, n, ns) for x in xs]
         for k in range(1, len(tots)):
             cnt += 1
-            if option == "euler":
+            inexact_units = bool(case.get("units")) and case["units"].get("quantity", "molecule") != "molecule"
+            if option == "euler" or inexact_units:
                 mag = sum(abs(Fraction(c[s])) * sum(abs(v) for v in xs[k][s * n:(s + 1) * n]) for s in range(ns))
                 mag = max(mag, sum(abs(Fraction(c[s])) * sum(abs(v) for v in xs[k - 1][s * n:(s + 1) * n]) for s in range(ns)))
                 ok = abs(tots[k] - tots[k - 1]) <= Fraction(1, 10 ** 9) * mag
@@ -209,6 +325,21 @@ def run(ctx):
             c["option"] = option
             c["dt"] = 1 / 1024 if option == "euler" else (b.get("tau_dt", 1 / 2048) if option == "tauleap" else 1 / 2048)
             c["max_iter"] = {"euler": ctx.n(60, 400), "tauleap": ctx.n(25, 200), "gillespie": ctx.n(150, 3000)}[option]
+            cases.append(c)
+    rng = ctx.rng
+    # 'none' processing with NON-INTEGER amounts (what the deterministic engine gets by default) on every engine, and
+    # scripts in other unit systems: the recorded samples, t = 0 included, must all carry the same totals
+    for b in base[:ctx.n(10, 80)]:
+        for option in ("tauleap", "euler", "gillespie"):
+            c = dict(b)
+            c["option"] = option
+            c["mode"] = "none"
+            c["state"] = [v + rng.choice([0.0, 0.5, 0.25, 0.75]) for v in b["state"]]
+            c["dt"] = 1 / 1024 if option == "euler" else 1 / 2048
+            c["max_iter"] = {"euler": 30, "tauleap": 20, "gillespie": 60}[option]
+            if rng.random() < 0.5:
+                # (quantity unit left at molecule here: fractional amounts would not survive the unit round trip bit for bit)
+                c["units"] = {"time": rng.choice(["ms", "min"]), "quantity": "molecule"}
             cases.append(c)
     # successive simulations on ONE engine object: same species labels and reaction count, other stoichiometry
     rng = ctx.rng
@@ -241,7 +372,7 @@ def run(ctx):
             ctx.notes.append("time budget reached after %d of %d scripts" % (c0, len(cases)))
             break
         part = cases[c0:c0 + chunk]
-        results = stoch_gen.run_batch("props.c02", "child_run_seq", part, kind="shim", timeout=ctx.n(20, 120))
+        results = stoch_gen.run_batch("stoch_gen", "child_run_seq", part, kind="shim", timeout=ctx.n(20, 120))
         ops, meta = [], []
         for ci, (case, res) in enumerate(zip(part, results)):
             if res is None:
@@ -265,6 +396,10 @@ def run(ctx):
             ctx.count("space_" + case["kind"])
             if case.get("before"):
                 ctx.count("engine_object_reused")
+            if case.get("mode") == "none":
+                ctx.count("none_mode_fractional_state")
+            if case.get("units"):
+                ctx.count("nondefault_units")
             ctx.count("vectors_%d" % min(len(vectors), 4))
             if arr["nr"] == 0:
                 ctx.count("diffusion_only")
@@ -368,8 +503,8 @@ def run(ctx):
 
 def replay(ctx, rec):
     case = rec.get("case", rec)
-    base = {k: case[k] for k in ("net", "space", "kind", "option", "seed", "dt", "tmax", "state", "max_iter", "edge", "before") if k in case}
-    res = stoch_gen.run_batch("props.c02", "child_run_seq", [base], kind="shim", timeout=60)[0]
+    base = {k: case[k] for k in ("net", "space", "kind", "option", "seed", "dt", "tmax", "state", "max_iter", "edge", "before", "mode", "units", "same_object") if k in case}
+    res = stoch_gen.run_batch("stoch_gen", "child_run_seq", [base], kind="shim", timeout=60)[0]
     if res is None or res.get("hang") or "crash" in res or "exception" in res:
         return False, {"case": base, "impl": res}
 
